@@ -93,7 +93,7 @@ SPEC = dict(
     rule=("histories of install / refresh (to a new and to a kept revision) / revert / revert-to / remove / remove-rev / "
           "enable / disable / refresh.retain changes / `snap set` / refresh inhibition on one snap, played through the real "
           "snapstate entry points, handlers and task runner with the package's fake backend and store; every change may get "
-          "a failure (an error-trigger task in place of its k-th task, k random) and 8 base histories (plus one fixed remove/enable history) sweep EVERY failure "
+          "a failure (an error-trigger task in place of its k-th task, k random) and 10 base histories (plus two fixed remove-revision / enable histories and deep histories with more kept revisions than the lowered retain) sweep EVERY failure "
           "position 1..tasks+1 of their last operation (install, refresh with and without garbage collection, refresh to a "
           "kept revision, revert, revert-to not-blocking, the repaired finding 6 as a regression history, the recorded findings 7 and 13). "
           "Non-trivial = a history with a change that failed after its link-snap completed."),
